@@ -44,4 +44,31 @@ Step(u, f, dt) ==
 
 \* the selectors of QUERY COLOUR VALUE (209 Table 11)
 QuerySelectors == (0..15) \cup (64..82) \cup (128..131) \cup (192..208) \cup (224..240)
+
+\* names of the selectors (IEC 62386-209 Table 11, QUERY COLOUR VALUE) and of the Tc limits (Table 7, DTR2 of STORE COLOUR
+\* TEMPERATURE Tc LIMIT), spelled as the library spells its enumeration members; the limit a query selector reports is the
+\* one stored under the limit selector of the same name
+QuerySelectorNames == {
+    <<"XCoordinate", 0>>, <<"YCoordinate", 1>>, <<"ColourTemperatureTC", 2>>, <<"PrimaryNDimLevel0", 3>>,
+    <<"PrimaryNDimLevel1", 4>>, <<"PrimaryNDimLevel2", 5>>, <<"PrimaryNDimLevel3", 6>>, <<"PrimaryNDimLevel4", 7>>,
+    <<"PrimaryNDimLevel5", 8>>, <<"RedDimLevel", 9>>, <<"GreenDimLevel", 10>>, <<"BlueDimLevel", 11>>,
+    <<"WhiteDimLevel", 12>>, <<"AmberDimLevel", 13>>, <<"FreecolourDimLevel", 14>>, <<"RGBWAFControl", 15>>,
+    <<"XCoordinatePrimaryN0", 64>>, <<"YCoordinatePrimaryN0", 65>>, <<"TYPrimaryN0", 66>>, <<"XCoordinatePrimaryN1", 67>>,
+    <<"YCoordinatePrimaryN1", 68>>, <<"TYPrimaryN1", 69>>, <<"XCoordinatePrimaryN2", 70>>, <<"YCoordinatePrimaryN2", 71>>,
+    <<"TYPrimaryN2", 72>>, <<"XCoordinatePrimaryN3", 73>>, <<"YCoordinatePrimaryN3", 74>>, <<"TYPrimaryN3", 75>>,
+    <<"XCoordinatePrimaryN4", 76>>, <<"YCoordinatePrimaryN4", 77>>, <<"TYPrimaryN4", 78>>, <<"XCoordinatePrimaryN5", 79>>,
+    <<"YCoordinatePrimaryN5", 80>>, <<"TYPrimaryN5", 81>>, <<"NumberOfPrimaries", 82>>, <<"ColourTemperatureTcCoolest", 128>>,
+    <<"ColourTemperatureTcPhysicalCoolest", 129>>, <<"ColourTemperatureTcWarmest", 130>>, <<"ColourTemperatureTcPhysicalWarmest", 131>>, <<"TemporaryXCoordinate", 192>>,
+    <<"TemporaryYCoordinate", 193>>, <<"TemporaryColourTemperature", 194>>, <<"TemporaryPrimaryNDimLevel0", 195>>, <<"TemporaryPrimaryNDimLevel1", 196>>,
+    <<"TemporaryPrimaryNDimLevel2", 197>>, <<"TemporaryPrimaryNDimLevel3", 198>>, <<"TemporaryPrimaryNDimLevel4", 199>>, <<"TemporaryPrimaryNDimLevel5", 200>>,
+    <<"TemporaryRedDimLevel", 201>>, <<"TemporaryGreenDimLevel", 202>>, <<"TemporaryBlueDimLevel", 203>>, <<"TemporaryWhiteDimLevel", 204>>,
+    <<"TemporaryAmberDimLevel", 205>>, <<"TemporaryFreecolourDimLevel", 206>>, <<"TemporaryRgbwafControl", 207>>, <<"TemporaryColourType", 208>>,
+    <<"ReportXCoordinate", 224>>, <<"ReportYCoordinate", 225>>, <<"ReportColourTemperatureTc", 226>>, <<"ReportPrimaryNDimLevel0", 227>>,
+    <<"ReportPrimaryNDimLevel1", 228>>, <<"ReportPrimaryNDimLevel2", 229>>, <<"ReportPrimaryNDimLevel3", 230>>, <<"ReportPrimaryNDimLevel4", 231>>,
+    <<"ReportPrimaryNDimLevel5", 232>>, <<"ReportRedDimLevel", 233>>, <<"ReportGreenDimLevel", 234>>, <<"ReportBlueDimLevel", 235>>,
+    <<"ReportWhiteDimLevel", 236>>, <<"ReportAmberDimLevel", 237>>, <<"ReportFreecolourDimLevel", 238>>, <<"ReportRgbwafControl", 239>>,
+    <<"ReportColourType", 240>>}
+LimitSelectorNames == {<<"TcCoolest", 0>>, <<"TcWarmest", 1>>, <<"TcPhysicalCoolest", 2>>, <<"TcPhysicalWarmest", 3>>}
+\* query selector that reads back limit selector k
+LimitQuery == [k \in 0..3 |-> CASE k = 0 -> 128 [] k = 1 -> 130 [] k = 2 -> 129 [] k = 3 -> 131]
 =============================================================================
